@@ -122,34 +122,45 @@ static inline bool ts_tree_cursor_child_iterator_previous(
   TreeCursorEntry *result,
   bool *visible
 ) {
-  // this is mostly a reverse `ts_tree_cursor_child_iterator_next` taking into
-  // account unsigned underflow
-  if (!self->parent.ptr || (int8_t)self->child_index == -1) return false;
+  // this is a reverse `ts_tree_cursor_child_iterator_next`: on entry, the
+  // iterator's `structural_child_index` and `descendant_index` are those of
+  // the child at `child_index`, exactly as in the forward direction.
+  // `child_index` wraps around to UINT32_MAX when stepping back from the first child.
+  if (!self->parent.ptr || self->child_index == UINT32_MAX) return false;
   const Subtree *child = &ts_subtree_children(self->parent)[self->child_index];
   *result = (TreeCursorEntry) {
     .subtree = child,
     .position = self->position,
     .child_index = self->child_index,
     .structural_child_index = self->structural_child_index,
+    .descendant_index = self->descendant_index,
   };
   *visible = ts_subtree_visible(*child);
   bool extra = ts_subtree_extra(*child);
+  if (!extra && self->alias_sequence) {
+    *visible |= self->alias_sequence[self->structural_child_index];
+  }
 
   self->position = length_backtrack(self->position, ts_subtree_padding(*child));
   self->child_index--;
-
-  if (!extra && self->alias_sequence) {
-    *visible |= self->alias_sequence[self->structural_child_index];
-    if (self->structural_child_index > 0) {
-      self->structural_child_index--;
-    }
-  }
 
   // unsigned can underflow so compare it to child_count
   if (self->child_index < self->parent.ptr->child_count) {
     Subtree previous_child = ts_subtree_children(self->parent)[self->child_index];
     Length size = ts_subtree_size(previous_child);
     self->position = length_backtrack(self->position, size);
+
+    // Step the structural index and the descendant index back over the
+    // child that is entered (not the one that is left).
+    bool previous_visible = ts_subtree_visible(previous_child);
+    if (!ts_subtree_extra(previous_child)) {
+      self->structural_child_index--;
+      if (self->alias_sequence) {
+        previous_visible |= self->alias_sequence[self->structural_child_index];
+      }
+    }
+    self->descendant_index -= ts_subtree_visible_descendant_count(previous_child);
+    if (previous_visible) self->descendant_index -= 1;
   }
 
   return true;
